@@ -204,7 +204,7 @@ func genC04(t *rapid.T) C04Case {
 }
 
 func TestC04(t *testing.T) {
-	p := Prop[C04Case]{ID: "C04", Sub: "independent-decode", Gen: genC04, Run: runC04, Quick: 20000, Thorough: 100000}
+	p := Prop[C04Case]{ID: "C04", Sub: "independent-decode", Gen: genC04, Run: runC04, Quick: 20000, Thorough: 400000}
 	Enumerate(t, p, "boundary-pool", func(yield func(C04Case) bool) {
 		for _, v := range boundaryScalars() {
 			shapes := [][]model.Value{
